@@ -1,4 +1,9 @@
-from vcheck import Unit, TSAN_INSTR
+from vcheck import Unit, TSAN_INSTR, ASAN_ENV
+
+_AS = ["-fsanitize=address", "-fno-omit-frame-pointer"]
+_BURST = ("free-running threads of the named backend under AddressSanitizer: bursts of n in {1,2,255,256,257,1000} (thorough also 100000; OpenMP <= 1000) closures owning heap state via schedule(), "
+          "async() returning heap-owning strings, and AsyncTask<std::string> objects that are polled / read / destroyed unasked; exactly-once counters and returned values. "
+          "Exhaustive over the burst sizes, observational over the backend schedules")
 
 _RULE = ("every schedule (<= d deviations, d iterated 0..bound) of the calling thread against the thread(s) executing the task for: schedule() of 1-3 closures "
          "owning heap state; async() with int / heap-owning std::string / lifetime-instrumented results, 1-2 futures; AsyncTask<T> for the same result types "
@@ -22,4 +27,10 @@ UNITS_LOCAL = {"C02": [
     Unit("tasks_debug", ["harness/C02_tasks.cpp"], repo_src=["rkcommon/tasking/detail/tasking_system_init.cpp"], cxx="g++", flags=TSAN_INSTR,
          mcsched=True, engine="mcsched", budget={"quick": 120, "thorough": 300},
          rule="serial debug backend (one schedule per scenario): " + _RULE, assumptions=_ASSUME),
+    Unit("bursts_tbb", ["harness/C02_bursts.cpp"], repo_src=["rkcommon/tasking/detail/tasking_system_init.cpp"], cxx="g++", flags=_AS, env=ASAN_ENV,
+         defs=["RKCOMMON_TASKING_TBB", 'BACKEND="tbb"'], libs=["-ltbb"], engine="gridmc", budget={"quick": 120, "thorough": 600}, rule=_BURST, assumptions=_ASSUME),
+    Unit("bursts_openmp", ["harness/C02_bursts.cpp"], repo_src=["rkcommon/tasking/detail/tasking_system_init.cpp"], cxx="g++", flags=_AS + ["-fopenmp"], env=ASAN_ENV,
+         defs=["RKCOMMON_TASKING_OMP", 'BACKEND="openmp"'], engine="gridmc", budget={"quick": 120, "thorough": 600}, rule=_BURST, assumptions=_ASSUME),
+    Unit("bursts_internal", ["harness/C02_bursts.cpp"], repo_src=_INT, cxx="g++", flags=_AS, env=ASAN_ENV,
+         defs=["RKCOMMON_TASKING_INTERNAL", 'BACKEND="internal"'], engine="gridmc", budget={"quick": 120, "thorough": 600}, rule=_BURST, assumptions=_ASSUME),
 ]}
